@@ -107,6 +107,24 @@ RECURSIVE SumSeq(_)
 SumSeq(s) == IF s = <<>> THEN 0 ELSE Head(s) + SumSeq(Tail(s))
 (* what the test fixtures' handlers return (the dispatcher must hand it back unchanged) *)
 FunctorRet(h, xs) == h * 100 + SumSeq(xs)
+
+(* What the registered handler does is the user's business; the fixtures' handlers come in four
+   behaviours, told apart by their id (the dispatcher must do its job around each of them):
+     "ret"    (every other id)  records what it was given and returns FunctorRet
+     "throw"  (ids 50..59)      records, then throws a user exception that carries its id
+     "nest"   (ids 60..69)      records, then dispatches the same arguments in reverse order (same extras)
+                                 through the same dispatcher object and adds the inner result to its own
+     "reg"    (ids 70..79)      records, then registers the plain handler id - 60 for the reversed class
+                                 tuple in the same dispatcher object (registration from inside a running
+                                 handler: NOT covered by the property statement - explored as advisory only)
+   Inside a nested dispatch the handlers "nest" and "reg" behave as "ret" (the fixtures stop at depth 1);
+   "throw" throws at any depth.  The backends used directly (the raw kinds) take plain callbacks only. *)
+BehOfIn(kind, h) == IF kind \in {"raw_map", "raw_fast"} THEN "ret"
+                    ELSE CASE h \in 50..59 -> "throw" [] h \in 60..69 -> "nest" [] h \in 70..79 -> "reg" [] OTHER -> "ret"
+Reverse(s) == [i \in 1..Len(s) |-> s[Len(s) + 1 - i]]
+(* a user exception left the call: it must reach the caller unchanged (code), after exactly n handler
+   invocations, the last of which (the thrower) was h for signature sig on the objects os *)
+Thrown(n, h, sig, os) == [exc |-> "user", val |-> [calls |-> n, ret |-> 0, rep |-> 0, h |-> h, sig |-> sig, objs |-> os, code |-> h]]
 StaticRet(sig)    == 1000 + 10 * sig[1] + sig[2]
 VisitRet(c)       == 100 + c
 
@@ -172,9 +190,29 @@ Dispatch(d, os, xs) ==
     /\ Live(d)
     /\ Len(os) = cfg.ar /\ Len(xs) = cfg.nx
     /\ ClsTuple(os) \in MyTuples
-    /\ LET t == ClsTuple(os)  r == RegOf(d) IN
-       IF r[t] # 0 THEN Obs("Dispatch", [d |-> d, os |-> os, xs |-> xs], Handled(r[t], t, os, xs, FunctorRet(r[t], xs)))
-       ELSE \E ek \in ThrowKinds : Obs("Dispatch", [d |-> d, os |-> os, xs |-> xs], Err(ek, 0, 0))
+    /\ LET t == ClsTuple(os)  r == RegOf(d)  a == [d |-> d, os |-> os, xs |-> xs]
+           beh == BehOfIn(cfg.kind, r[t])
+           ros == Reverse(os)  rt == ClsTuple(ros)  h2 == r[rt] IN
+       CASE r[t] = 0 -> \E ek \in ThrowKinds : Obs("Dispatch", a, Err(ek, 0, 0))
+         [] r[t] # 0 /\ beh = "ret" -> Obs("Dispatch", a, Handled(r[t], t, os, xs, FunctorRet(r[t], xs)))
+         [] r[t] # 0 /\ beh = "throw" -> Obs("Dispatch", a, Thrown(1, r[t], t, os))
+         [] r[t] # 0 /\ beh = "nest" ->
+              (* the nested call is a dispatch like any other: exactly the handler for the reversed tuple, or
+                 the error report, which leaves the outer handler (the fixture does not catch it) *)
+              IF h2 = 0 THEN \E ek \in ThrowKinds : Obs("Dispatch", a, [exc |-> ek, val |-> [calls |-> 1, ret |-> 0, rep |-> 0]])
+              ELSE IF BehOfIn(cfg.kind, h2) = "throw" THEN Obs("Dispatch", a, Thrown(2, h2, rt, ros))
+              ELSE Obs("Dispatch", a,
+                       [exc |-> "none",
+                        val |-> [calls |-> 2, ret |-> FunctorRet(r[t], xs) + FunctorRet(h2, xs), rep |-> 0, h |-> r[t], sig |-> t,
+                                 dyn |-> t, objs |-> os, tg |-> os, xv |-> xs, xid |-> TRUE,
+                                 in |-> [h |-> h2, sig |-> rt, objs |-> ros]]])
+         [] r[t] # 0 /\ beh = "reg" ->
+              (* advisory reading: the registration made by the running handler takes effect in that object, the
+                 running call completes as if nothing had happened *)
+              LET nr == [r EXCEPT ![rt] = r[t] - 60] IN
+              Step("Dispatch", a, IF d = 1 THEN nr ELSE reg, IF d = 2 THEN nr ELSE reg2, has2, seen,
+                   Append(hist, [op |-> "I", d |-> d, t |-> rt, h |-> r[t] - 60, how |-> "reentrant"]),
+                   Handled(r[t], t, os, xs, FunctorRet(r[t], xs)))
 
 (* Copies.  Dispatchers are values: a copy dispatches like the original at the time of the copy and
    is independent of it afterwards.
@@ -209,6 +247,14 @@ Take(how) ==
             IF how \in {"move", "movector"} THEN FALSE ELSE has2,
             seen,
             Append(hist, [op |-> "T", d |-> 1, t |-> <<>>, h |-> 0, how |-> how]), Void)
+(* New2: the second object becomes a freshly constructed, independent dispatcher (an existing second
+   object is destroyed first).  Every dispatcher object has its own registrations.  (For the fast kinds
+   this is a second fast dispatcher over the same hierarchy, which the property statement excludes: the
+   check uses it there only in its advisory stage.) *)
+New2 ==
+    /\ cfg.kind \in FunctorKinds
+    /\ Step("New2", NoArg, reg, ZeroReg(cfg.ar, cfg.k), TRUE, seen,
+            Append(hist, [op |-> "N", d |-> 2, t |-> <<>>, h |-> 0, how |-> ""]), Void)
 Drop2 ==
     /\ cfg.kind \in FunctorKinds
     /\ has2
@@ -322,6 +368,7 @@ ObjTuples(ar, k) == CASE ar = 1 -> {<<a>> : a \in ObjectsOf(k)}
                       [] OTHER  -> {<<a, b, c>> : a, b, c \in {10 * i : i \in 1..k}}
 (* representative argument tuples: first objects of each class, plus the second objects for arity <= 2 *)
 SlotsLive == {d \in 1..2 : Live(d)}
+BehIds == {1, 50, 60}        \* a plain, a throwing and a nesting handler (the "reg" handlers: advisory scripts only)
 
 NInsert   == C("insert")   /\ \E d \in SlotsLive, t \in MyTuples : Insert(d, t, Len(hist) + 1)          \* a fresh handler per registration
 NInsert2  == C("insert2")  /\ \E d \in SlotsLive, t \in MyTuples, h \in 1..2 : Insert(d, t, h)
@@ -330,12 +377,14 @@ NDispatch == C("dispatch") /\ \E d \in SlotsLive, os \in ObjTuples(cfg.ar, cfg.k
 NClone    == C("clone")    /\ \E how \in CloneHows : Clone(how)
 NTake     == C("clone")    /\ \E how \in TakeHows : Take(how)
 NDrop2    == C("clone")    /\ Drop2
+NNew2     == C("new2")     /\ New2
+NInsertB  == C("insertb")  /\ \E d \in SlotsLive, t \in MyTuples, h \in BehIds : Insert(d, t, h)
 NStatic   == C("static")   /\ \E m \in StaticMenu, a, b \in AllObjects : ~m.sym /\ Static(m.lhs, m.rhs, m.cst, m.cv, a, b)
 NStaticSym == C("static")  /\ \E m \in StaticMenu, a, b \in AllObjects : m.sym /\ StaticSym(m.lhs, m.cst, m.cv, a, b)
 NAccept   == C("accept")   /\ \E v \in Variants, m \in DOMAIN VisitorMenu, o \in AllObjects : Accept(v, m, o)
 NCyclic   == C("cyclic")   /\ \E cst \in BOOLEAN, rv \in {"long", "void"}, o \in AllObjects : Cyclic(cst, rv, o)
 
-Next == NInsert \/ NInsert2 \/ NErase \/ NDispatch \/ NClone \/ NTake \/ NDrop2 \/ NStatic \/ NStaticSym \/ NAccept \/ NCyclic
+Next == NInsert \/ NInsert2 \/ NInsertB \/ NErase \/ NDispatch \/ NClone \/ NTake \/ NDrop2 \/ NNew2 \/ NStatic \/ NStaticSym \/ NAccept \/ NCyclic
 
 (* combinations of arity and number of undispatched arguments compiled into the harness *)
 CfgOK(c) == /\ (c.ar = 1 => c.nx \in {0, 1, 3}) /\ (c.ar = 2 => c.nx <= 2) /\ (c.ar = 3 => c.nx <= 1)
@@ -375,7 +424,7 @@ TypeOK ==
     /\ has2 \in BOOLEAN
     /\ ~has2 => reg2 = ZeroReg(cfg.ar, cfg.k)
     /\ seen \subseteq 1..cfg.k
-    /\ last.res.exc \in {"none", "exception", "on_error", "catch_all", "abort"}
+    /\ last.res.exc \in {"none", "exception", "on_error", "catch_all", "abort", "user"}
 
 (* "registered" means: the last event of the history about t is an Insert, and reg[t] is its handler
    (for executions that never copied a dispatcher) *)
@@ -396,6 +445,7 @@ Replay(h, z) ==
            [] e.op = "E" -> IF e.d = 1 THEN [s EXCEPT !.r1 = [s.r1 EXCEPT ![e.t] = 0]] ELSE [s EXCEPT !.r2 = [s.r2 EXCEPT ![e.t] = 0]]
            [] e.op = "C" -> [s EXCEPT !.r2 = s.r1, !.two = TRUE]
            [] e.op = "D" -> [s EXCEPT !.r2 = z, !.two = FALSE]
+           [] e.op = "N" -> [s EXCEPT !.r2 = z, !.two = TRUE]
            [] e.op = "T" -> CASE e.how = "self" -> s
                               [] e.how = "swap" -> [s EXCEPT !.r1 = s.r2, !.r2 = s.r1]
                               [] e.how \in {"move", "movector"} -> [s EXCEPT !.r1 = s.r2, !.r2 = z, !.two = FALSE]
@@ -407,8 +457,9 @@ TablesAreHistory == LET s == Replay(hist, ZeroReg(cfg.ar, cfg.k)) IN reg = s.r1 
    arrived in the positions of their types *)
 IsA(c, s) == c = s \/ s \in Anc(c)
 IsOutcome(r, exact) ==
-    /\ (r.exc # "none" => r.val.calls = 0)
-    /\ (r.exc = "none" => /\ r.val.calls = 1 /\ r.val.rep = 0 /\ r.val.xid
+    /\ (r.exc \notin {"none", "user"} => r.val.calls \in {0, 1})      \* 1: the error report of a nested dispatch left the outer handler
+    /\ (r.exc = "user" => r.val.calls \in {1, 2} /\ r.val.code = r.val.h /\ ClsTuple(r.val.objs) = r.val.sig)
+    /\ (r.exc = "none" => /\ r.val.calls \in {1, 2} /\ r.val.rep = 0 /\ r.val.xid
                           /\ exact => r.val.sig = r.val.dyn
                           /\ \A i \in 1..Len(r.val.objs) : /\ ClsOf(r.val.objs[i]) = r.val.dyn[i]
                                                             /\ IsA(r.val.dyn[i], r.val.sig[i]))
@@ -431,14 +482,21 @@ OutcomeOK ==
 DispatchExact ==
     last.op = "Dispatch" =>
         LET t == ClsTuple(last.a.os)
-            r == IF last.a.d = 1 THEN pre.reg ELSE pre.reg2 IN
-        /\ (r[t] # 0) = (last.res.exc = "none")
-        /\ last.res.exc = "none" => /\ last.res.val.h = r[t] /\ last.res.val.sig = t
-                                    /\ last.res.val.objs = last.a.os /\ last.res.val.xv = last.a.xs
+            rt == ClsTuple(Reverse(last.a.os))
+            r == IF last.a.d = 1 THEN pre.reg ELSE pre.reg2
+            v == last.res.val IN
+        /\ (r[t] = 0) => (last.res.exc \in {"exception", "abort"} /\ v.calls = 0)          \* nothing ran
+        /\ (r[t] # 0) => v.calls >= 1
+        /\ last.res.exc = "none" => /\ v.h = r[t] /\ v.sig = t /\ v.objs = last.a.os /\ v.xv = last.a.xs
+                                    /\ v.calls = 2 => (v.in.h = r[rt] /\ v.in.h # 0 /\ v.in.sig = rt /\ v.in.objs = Reverse(last.a.os))
+        /\ last.res.exc = "user" => \/ (v.calls = 1 /\ v.h = r[t] /\ v.objs = last.a.os)
+                                    \/ (v.calls = 2 /\ v.h = r[rt] /\ v.objs = Reverse(last.a.os))
+        /\ (last.res.exc \in {"exception", "abort"} /\ v.calls = 1) => r[rt] = 0            \* only a failed nested look-up
 
 (* calls that look something up never change a table; a registration changes exactly one cell of
    exactly one object; a copy equals its source and leaves the source alone *)
-LookupsPure == [][last'.op \notin {"Insert", "Erase", "Clone", "Take", "Drop2"} =>
+RegBeh(d) == LET r == RegOf(d)  t == ClsTuple(last'.a.os) IN BehOfIn(cfg.kind, r[t]) = "reg"
+LookupsPure == [][(last'.op \notin {"Insert", "Erase", "Clone", "Take", "Drop2", "New2"} /\ ~(last'.op = "Dispatch" /\ RegBeh(last'.a.d))) =>
                     reg' = reg /\ reg2' = reg2 /\ has2' = has2 /\ hist' = hist]_vars
 OneCell     == [][last'.op \in {"Insert", "Erase"} =>
                     /\ \A t \in DOMAIN reg : (t # last'.a.t \/ last'.a.d # 1) => reg'[t] = reg[t]
@@ -449,5 +507,6 @@ CopiesAreValues == [][/\ last'.op = "Clone" => (reg2' = reg /\ reg' = reg /\ has
                       /\ (last'.op = "Take" /\ last'.a.how \in {"move", "movector"}) => (reg' = reg2 /\ ~has2')
                       /\ (last'.op = "Take" /\ last'.a.how = "swap") => (reg' = reg2 /\ reg2' = reg /\ has2')
                       /\ (last'.op = "Take" /\ last'.a.how = "self") => (reg' = reg /\ reg2' = reg2 /\ has2' = has2)
+                      /\ last'.op = "New2" => (reg' = reg /\ has2' /\ reg2' = ZeroReg(cfg.ar, cfg.k))
                       /\ last'.op = "Drop2" => (reg' = reg /\ ~has2')]_vars
 =============================================================================
